@@ -5,6 +5,7 @@ sum over a primitive root of unity.
 -/
 import OdlModel.Model.Fourier
 import Mathlib.Tactic.Ring
+import Mathlib.Tactic.LinearCombination
 import Mathlib.Tactic.FieldSimp
 import Mathlib.Tactic.Linarith
 import Mathlib.Tactic.Push
@@ -58,5 +59,109 @@ theorem Grid.point_half (g g' : Grid) (hs : g'.shape = g.shape) (hmin : g'.min =
     (hmax : g'.max = g.max / 2) (j : Nat) : g'.point j = g.point j / 2 := by
   simp only [Grid.point, Grid.stride, hs, hmin, hmax]
   split_ifs <;> ring
+
+/-! ### Sums, powers, roots of unity -/
+
+section field
+open Finset
+variable {K : Type} [Field K]
+
+theorem sumTo_eq_sum (n : Nat) (g : Nat → K) : sumTo n g = ∑ j ∈ range n, g j := by
+  induction n with
+  | zero => simp [sumTo]
+  | succ m ih => rw [sumTo, ih, Finset.sum_range_succ]
+
+theorem pw_eq_pow (x : K) (n : Nat) : pw x n = x ^ n := by
+  induction n with
+  | zero => simp [pw]
+  | succ m ih => rw [pw, ih, pow_succ]
+
+theorem dftSum_eq (w : K) (n : Nat) (f : Nat → K) (k : Nat) :
+    dftSum w n f k = ∑ j ∈ range n, f j * w ^ (j * k) := by
+  simp [dftSum, sumTo_eq_sum, pw_eq_pow]
+
+/-- primitive n-th root of unity, elementary form -/
+def IsPrimRoot (w : K) (n : Nat) : Prop := w ^ n = 1 ∧ ∀ d, 0 < d → d < n → w ^ d ≠ 1
+
+theorem IsPrimRoot.ne_zero {w : K} {n : Nat} (h : IsPrimRoot w n) (hn : 0 < n) : w ≠ 0 := by
+  intro h0
+  have := h.1
+  rw [h0, zero_pow (by omega)] at this
+  exact zero_ne_one this
+
+/-- orthogonality: Σ_j w^(j l) (w⁻¹)^(j k) = n δ_{lk} for l,k<n -/
+theorem geom_orth {w : K} {n : Nat} (h : IsPrimRoot w n) (hn : 0 < n) (l k : Nat) (hl : l < n) (hk : k < n) :
+    ∑ j ∈ range n, w ^ (j * l) * (w⁻¹) ^ (j * k) = if l = k then (n : K) else 0 := by
+  have hw := h.ne_zero hn
+  by_cases hlk : l = k
+  · subst hlk
+    simp only [if_true]
+    have : ∀ j ∈ range n, w ^ (j * l) * (w⁻¹) ^ (j * l) = 1 := by
+      intro j _
+      rw [inv_pow, mul_inv_cancel₀ (pow_ne_zero _ hw)]
+    rw [Finset.sum_congr rfl this]; simp
+  · simp only [hlk, if_false]
+    set z : K := w ^ l * (w⁻¹) ^ k with hz
+    have hterm : ∀ j ∈ range n, w ^ (j * l) * (w⁻¹) ^ (j * k) = z ^ j := by
+      intro j _
+      rw [hz, mul_pow, ← pow_mul, ← pow_mul, mul_comm l j, mul_comm k j]
+    rw [Finset.sum_congr rfl hterm]
+    have hzn : z ^ n = 1 := by
+      rw [hz, mul_pow, ← pow_mul, ← pow_mul, mul_comm l n, mul_comm k n, pow_mul, pow_mul, inv_pow, h.1]
+      simp
+    have hz1 : z ≠ 1 := by
+      intro h1
+      have hwk : w ^ k ≠ 0 := pow_ne_zero _ hw
+      have e : w ^ l = w ^ k := by
+        have := congrArg (· * w ^ k) h1
+        simp only [hz, inv_pow, one_mul] at this
+        rw [mul_assoc, inv_mul_cancel₀ hwk, mul_one] at this
+        exact this
+      rcases Nat.lt_or_gt_of_ne hlk with hlt | hgt
+      · have : w ^ (k - l) = 1 := by
+          have hwl : w ^ l ≠ 0 := pow_ne_zero _ hw
+          have e2 : w ^ l * w ^ (k - l) = w ^ l * 1 := by
+            rw [← pow_add, Nat.add_sub_cancel' hlt.le, mul_one, e]
+          exact mul_left_cancel₀ hwl e2
+        exact h.2 (k - l) (by omega) (by omega) this
+      · have : w ^ (l - k) = 1 := by
+          have e2 : w ^ k * w ^ (l - k) = w ^ k * 1 := by
+            rw [← pow_add, Nat.add_sub_cancel' hgt.le, mul_one, e]
+          exact mul_left_cancel₀ hwk e2
+        exact h.2 (l - k) (by omega) (by omega) this
+    have := geom_sum_mul z n
+    rw [hzn, sub_self] at this
+    rcases mul_eq_zero.mp this with h0 | h0
+    · exact h0
+    · exact absurd (sub_eq_zero.mp h0) hz1
+
+
+theorem IsPrimRoot.inv {w : K} {n : Nat} (h : IsPrimRoot w n) : IsPrimRoot w⁻¹ n := by
+  refine ⟨by rw [inv_pow, h.1, inv_one], ?_⟩
+  intro d hd hdn hc
+  apply h.2 d hd hdn
+  rw [inv_pow] at hc
+  exact inv_eq_one.mp hc
+
+/-- The double sum collapses: `Σ_j (Σ_l f l w^(l j)) (w⁻¹)^(j k) = n f k`. -/
+theorem dft_core {w : K} {n : Nat} (h : IsPrimRoot w n) (hn : 0 < n) (f : Nat → K) (k : Nat)
+    (hk : k < n) :
+    ∑ j ∈ range n, (∑ l ∈ range n, f l * w ^ (l * j)) * (w⁻¹) ^ (j * k) = (n : K) * f k := by
+  have : ∀ j ∈ range n, (∑ l ∈ range n, f l * w ^ (l * j)) * (w⁻¹) ^ (j * k)
+      = ∑ l ∈ range n, f l * (w ^ (j * l) * (w⁻¹) ^ (j * k)) := by
+    intro j _
+    rw [Finset.sum_mul]
+    apply Finset.sum_congr rfl
+    intro l _
+    rw [mul_comm l j]; ring
+  rw [Finset.sum_congr rfl this, Finset.sum_comm]
+  have : ∀ l ∈ range n, ∑ j ∈ range n, f l * (w ^ (j * l) * (w⁻¹) ^ (j * k))
+      = f l * (if l = k then (n : K) else 0) := by
+    intro l hl
+    rw [← Finset.mul_sum, geom_orth h hn l k (Finset.mem_range.mp hl) hk]
+  rw [Finset.sum_congr rfl this]
+  simp [Finset.sum_ite_eq', hk, mul_comm]
+
+end field
 
 end OdlModel.Fourier
